@@ -36,6 +36,21 @@ Ltac unfold_mat :=
   unfold mp44, mp33, mp22, mul44, mul33, mul22, inv44, inv33, inv22, det44, det33, det22, id44, id33, id22,
          affine44, affine33, e in *.
 
+(* Every reciprocal in the goal is the reciprocal of the determinant D speaks about - the same polynomial,
+   however the source writes it (`d := 1 / a.Determinant()` and `x * d`, `x / det`, the determinant
+   inlined or associated differently): it becomes ONE variable d with  det * d = 1.  The proofs below
+   therefore depend on what sdf/matrix.go computes over the reals, not on how it is written. *)
+Ltac gen_inv D :=
+  unfold Rdiv in *;
+  match type of D with ?det <> 0 =>
+    repeat match goal with |- context [Rinv ?x] =>
+             lazymatch x with det => fail | _ => replace (Rinv x) with (Rinv det) by (f_equal; ring) end
+           end;
+    let Hd := fresh "Hd" in
+    assert (Hd : det * / det = 1) by (apply Rinv_r; exact D);
+    generalize dependent (/ det); clear D; intros d Hd
+  end.
+
 (* an entry of  a * inverse(a): either the cofactor expansion of the determinant times 1/det, or 0 *)
 Ltac inv_entry Hd :=
   lazymatch goal with
@@ -46,38 +61,20 @@ Ltac inv_entry Hd :=
 (* ------------------------------------------------------------------ inverses *)
 Lemma inverse_correct_22 a : det22 a <> 0 -> mul22 a (inv22 a) = id22 /\ mul22 (inv22 a) a = id22.
 Proof.
-  intros D. unfold_mat. unfold m22_inverse; cbv zeta.
-  match type of D with ?det <> 0 =>
-    assert (Hd : det * (odiv ROps (o1 ROps) det) = 1)
-      by (change (det * (1 / det) = 1); unfold Rdiv; rewrite Rmult_1_l; apply Rinv_r; exact D);
-    generalize dependent (odiv ROps (o1 ROps) det) end.
-  clear D. intros d Hd.
-  unfold m22_mul, mk_identity, m22_determinant in *. cbn [nth] in *. cbn in Hd |- *.
-  split; repeat (f_equal; try (inv_entry Hd)).
+  intros D. unfold_mat. unfold m22_inverse, m22_mul, mk_identity, m22_determinant in *. cbv zeta. cbn [nth] in *. cbn in D |- *.
+  gen_inv D. split; repeat (f_equal; try (inv_entry Hd)).
 Qed.
 
 Lemma inverse_correct_33 a : det33 a <> 0 -> mul33 a (inv33 a) = id33 /\ mul33 (inv33 a) a = id33.
 Proof.
-  intros D. unfold_mat. unfold m33_inverse; cbv zeta.
-  match type of D with ?det <> 0 =>
-    assert (Hd : det * (odiv ROps (o1 ROps) det) = 1)
-      by (change (det * (1 / det) = 1); unfold Rdiv; rewrite Rmult_1_l; apply Rinv_r; exact D);
-    generalize dependent (odiv ROps (o1 ROps) det) end.
-  clear D. intros d Hd.
-  unfold m33_mul, mk_identity2d, m33_determinant in *. cbn [nth] in *. cbn in Hd |- *.
-  split; repeat (f_equal; try (inv_entry Hd)).
+  intros D. unfold_mat. unfold m33_inverse, m33_mul, mk_identity2d, m33_determinant in *. cbv zeta. cbn [nth] in *. cbn in D |- *.
+  gen_inv D. split; repeat (f_equal; try (inv_entry Hd)).
 Qed.
 
 Lemma inverse_correct_44 a : det44 a <> 0 -> mul44 a (inv44 a) = id44 /\ mul44 (inv44 a) a = id44.
 Proof.
-  intros D. unfold_mat. unfold m44_inverse; cbv zeta.
-  match type of D with ?det <> 0 =>
-    assert (Hd : det * (odiv ROps (o1 ROps) det) = 1)
-      by (change (det * (1 / det) = 1); unfold Rdiv; rewrite Rmult_1_l; apply Rinv_r; exact D);
-    generalize dependent (odiv ROps (o1 ROps) det) end.
-  clear D. intros d Hd.
-  unfold m44_mul, mk_identity3d, m44_determinant in *. cbn [nth] in *. cbn in Hd |- *.
-  split; repeat (f_equal; try (inv_entry Hd)).
+  intros D. unfold_mat. unfold m44_inverse, m44_mul, mk_identity3d, m44_determinant in *. cbv zeta. cbn [nth] in *. cbn in D |- *.
+  gen_inv D. split; repeat (f_equal; try (inv_entry Hd)).
 Qed.
 
 (* ------------------------------------------------------------------ products act by composition *)
@@ -118,24 +115,14 @@ Qed.
 (* the inverse of an affine matrix is affine, so the other composition is the identity too *)
 Lemma inverse_affine_44 a : det44 a <> 0 -> affine44 a -> affine44 (inv44 a).
 Proof.
-  intros D (H1 & H2 & H3 & H4). unfold_mat. unfold m44_inverse; cbv zeta.
-  match type of D with ?det <> 0 =>
-    assert (Hd : det * (odiv ROps (o1 ROps) det) = 1)
-      by (change (det * (1 / det) = 1); unfold Rdiv; rewrite Rmult_1_l; apply Rinv_r; exact D);
-    generalize dependent (odiv ROps (o1 ROps) det) end.
-  clear D. intros d Hd. unfold m44_determinant in Hd. cbn [nth] in *. cbn in Hd |- *.
-  rewrite H1, H2, H3, H4 in *. repeat split; try ring.
+  intros D (H1 & H2 & H3 & H4). unfold_mat. unfold m44_inverse, m44_determinant in *. cbv zeta. cbn [nth] in *. cbn in D |- *.
+  rewrite H1, H2, H3, H4 in *. gen_inv D. repeat split; try ring.
   etransitivity; [|exact Hd]. ring.
 Qed.
 Lemma inverse_affine_33 a : det33 a <> 0 -> affine33 a -> affine33 (inv33 a).
 Proof.
-  intros D (H1 & H2 & H3). unfold_mat. unfold m33_inverse; cbv zeta.
-  match type of D with ?det <> 0 =>
-    assert (Hd : det * (odiv ROps (o1 ROps) det) = 1)
-      by (change (det * (1 / det) = 1); unfold Rdiv; rewrite Rmult_1_l; apply Rinv_r; exact D);
-    generalize dependent (odiv ROps (o1 ROps) det) end.
-  clear D. intros d Hd. unfold m33_determinant in Hd. cbn [nth] in *. cbn in Hd |- *.
-  rewrite H1, H2, H3 in *. repeat split; try ring.
+  intros D (H1 & H2 & H3). unfold_mat. unfold m33_inverse, m33_determinant in *. cbv zeta. cbn [nth] in *. cbn in D |- *.
+  rewrite H1, H2, H3 in *. gen_inv D. repeat split; try ring.
   etransitivity; [|exact Hd]. ring.
 Qed.
 Lemma position_inverse_44 a p : det44 a <> 0 -> affine44 a -> mp44 a (mp44 (inv44 a) p) = p.
